@@ -121,12 +121,6 @@ func (ex *Exec) draw(label, kind string, w uint8, lo, hi uint64) *Term {
 	name := fmt.Sprintf("d%d_%s_w%d_%d_%d", n, kind, w, lo, hi)
 	t := ex.ts.Var(name, w, lo, hi)
 	ex.draws = append(ex.draws, DrawRec{Label: label, Kind: kind, W: int(w), T: t})
-	if w > 0 && (lo != 0 || hi != mask(w)) {
-		ts := ex.ts
-		c := ts.And(ts.Ule(ts.Const(w, lo), t), ts.Ule(t, ts.Const(w, hi)))
-		ex.W.solver.Assert(c)
-		ex.pc = append(ex.pc, c)
-	}
 	return t
 }
 
@@ -215,7 +209,6 @@ func init() {
 				// re-declare with the tighter interval for the executor
 				nt := ex.ts.Var(t.Name+"_nz", 64, 1, uint64(hi))
 				ex.assume(ex.ts.Eq(nt, t))
-				ex.draws[len(ex.draws)-1].T = t
 				t = nt
 			}
 			ex.chunkID++
@@ -433,9 +426,6 @@ func (ex *Exec) freshOpaque(tag byte, lo, hi uint64, why string) Str {
 	name := fmt.Sprintf("f%d_%s_%d_%d", n, why, lo, hi)
 	t := ex.ts.Var(name, 64, lo, hi)
 	ex.draws = append(ex.draws, DrawRec{Label: "fmt:" + why, Kind: "fmt", W: 64, T: t})
-	c := ex.ts.And(ex.ts.Ule(ex.ts.Const(64, lo), t), ex.ts.Ule(t, ex.ts.Const(64, hi)))
-	ex.W.solver.Assert(c)
-	ex.pc = append(ex.pc, c)
 	ex.chunkID++
 	return Str{Segs: []Seg{{Tag: tag, ID: ex.chunkID, Len: t}}}
 }
